@@ -23,9 +23,13 @@
 //     without a delimiter or in another letter case (atotal, subtotal,
 //     foo_Total, kilograms with unit g, fooSeconds) BOTH readings are accepted
 //     (suffix treated as carried, or appended).
+//   - a counter whose stem ends with a delimiter (a_, a__total, a._total):
+//     "the trailing delimiter is replaced by the _ of the suffix" (a_total)
+//     and "the stem is kept" (a__total) are both accepted.
 //   - a monotonic counter literally named "total": only legality, "ends with
-//     _total" and the unit-word rule are asserted (total_total and
-//     [ns_]_total are both accepted); before repair 11ae005 the scrape died.
+//     _total", the namespace prefix and the unit-word rule are asserted
+//     ([ns_]total[_unit]_total, [ns_][_unit]_total and ns[_unit]_total are all
+//     accepted); before repair 11ae005 the scrape killed the process.
 //   - the family name is otherwise asserted exactly:
 //     [namespace_]stem[_unitword][_total]. Under the legacy scheme, when the
 //     instrument name needs escaping, it is compared modulo WHICH legal
@@ -50,6 +54,12 @@
 //     scrape); exact values only for the quiescent scrape after all goroutines
 //     have returned (synchronous gauges written by >= 2 goroutines excepted:
 //     each reader keeps its own last value).
+//
+// Open finding recognised by the matcher legacy_colon_in_attribute_key: under
+// the legacy scheme the exporter escapes attribute keys with the METRIC name
+// rule, which keeps ':'; the label name "a:b" is illegal, NewConstMetric
+// fails, the error goes to otel.Handle and every series of the instrument is
+// silently missing from the scrape.
 package c18
 
 import (
@@ -63,7 +73,7 @@ func TestScrapeModel(t *testing.T) {
 		Property: "C18", Check: "scrape_model",
 		Rule: "a registry: exporter options x {UTF-8, legacy} scheme, resource, 1..2 scopes, 1..6 instruments (14 kinds) with grammar names biased to total/unit words, all table units + unknown ones, one (often colliding) key set with 1..5 tuples, exact measurements, 1..3 sequential scrapes each compared with a ManualReader on the same provider; " +
 			"non-trivial = some instrument name contains 'total' or a unit word, or attribute keys collide after sanitisation under the legacy scheme; distinct = distinct case encodings",
-		Quick: 2500, Thorough: 25000,
+		Quick: 4000, Thorough: 40000,
 		Gen: genCase(false), Run: runSeq,
 		Known: map[string]func(Case, vk.Violation) bool{"legacy_colon_in_attribute_key": knownColonKey},
 	})
@@ -74,7 +84,7 @@ func TestConcurrentScrapes(t *testing.T) {
 		Property: "C18", Check: "concurrent_scrapes",
 		Rule: "the same registries, scraped by 2..4 goroutines (1..3 Gather calls each) concurrently with 1..3 measuring goroutines, on 1..3 fresh exporters, under the race detector; then one quiescent scrape compared exactly; " +
 			"non-trivial = every case (>= 2 concurrent scrapes); distinct = distinct case encodings",
-		Quick: 700, Thorough: 8000,
+		Quick: 1200, Thorough: 12000,
 		Gen: genCase(true), Run: runConc,
 		Known:  map[string]func(Case, vk.Violation) bool{"legacy_colon_in_attribute_key": knownColonKey},
 		Repeat: 20,
